@@ -48,7 +48,7 @@ Words(k) == IF k = 0 THEN {<<>>} ELSE {w \o Alpha[i] : w \in Words(k - 1), i \in
 (* extra subjects for the character-set questions: CR, LS, VT, NBSP, BOM, e-acute, KELVIN SIGN, LONG S, digits *)
 Special1 == {<<13>>, <<8232>>, <<97, 13, 98>>, <<97, 8233>>, <<11>>, <<160>>, <<65279>>, <<233>>, <<201>>, <<8490>>, <<383>>, <<107>>, <<115>>,
              <<49>>, <<95>>, <<97, 233, 97>>, <<233, 97>>, <<32>>}
-Special == Special1 \cup {<<9>>, <<12>>, <<0>>, <<8>>, <<45>>, <<93>>, <<92>>, <<97, 45, 98>>, <<97>>, <<98>>, <<10>>, <<65>>, <<97, 10>>, <<>>, <<47>>, <<97, 47, 98>>}
+Special == Special1 \cup {<<1>>, <<26>>, <<99, 90>>, <<99, 97>>, <<9>>, <<12>>, <<0>>, <<8>>, <<45>>, <<93>>, <<92>>, <<97, 45, 98>>, <<97>>, <<98>>, <<10>>, <<65>>, <<97, 10>>, <<>>, <<47>>, <<97, 47, 98>>}
 SubjSeq == SetToSeq(UNION {Words(k) : k \in 0..MaxLen})
 Special1Seq == SetToSeq(Special1)
 SpecialSeq == SetToSeq(Special)
